@@ -28,8 +28,9 @@ ASSUME = [
     'the task definition, not of the individual cycle point)',
     'when fewer than n+1 recurrence points remain at or after the earliest '
     'pool point, the Pn limit is taken to be the final cycle point',
-    'operator alphabet (thorough only): one `stop --cycle-point` or one '
-    '`trigger` per execution, offered at every main-loop boundary; the '
+    'operator alphabet (operator profiles; quick has one with a single '
+    '`trigger`): one `stop --cycle-point` or one `trigger` per execution, '
+    'offered at every main-loop boundary; the '
     'reference stop point changes when the scheduler has processed the '
     'command; triggered instances are exempt from the moment the command '
     'is accepted; with operator commands only instances still held back by '
@@ -66,6 +67,9 @@ def _rows(tier: str):
                             ('P1', [E(A(a, -1), a)])], 3, 'P1', None),
         ('three-f4-ra2', [('R1', [N(s)]), ('P2', [N(a)]),
                           ('+P1/P2', [N(b)])], 4, 'P2', None),
+        ('future-and-r1-f3-ra0', [('P1', [N(a), N('x')]),
+                                  ('R1', [E(AND(A('x'), A(a, 1)), b)])], 3,
+         'P0', None),
         ('solo-P1-f5-ra2-stop3', [('P1', solo)], 5, 'P2', 3),
         ('future-P1-f4-ra1-stop3', [('P1', fut)], 4, 'P1', 3),
     ]
@@ -78,7 +82,7 @@ def _rows(tier: str):
             ('chain-P1-f3-ra0', [('P1', chain)], 3, 'P0', None),
             ('chain-P1-f3-ra2', [('P1', chain)], 3, 'P2', None),
             ('chain-P2-f5-ra1', [('P2', chain)], 5, 'P1', None),
-            ('future-P1-f4-ra2', [('P1', fut)], 4, 'P2', None),
+            ('future-P1-f3-ra2', [('P1', fut)], 3, 'P2', None),
             ('future-P2-f5-ra0', [('P2', [E(A(a, 2), b), N(a)])], 5, 'P0',
              None),
             ('future2-P1-f4-ra0', [('P1', [E(A(a, 2), b), N(a)])], 4, 'P0',
@@ -91,7 +95,7 @@ def _rows(tier: str):
              None),
             ('two-P2-P3-f7-ra2', [('P2', [N(a)]), ('P3', [N(b)])], 7, 'P2',
              None),
-            ('two-P1-P2-f4-ra2', [('P1', [N(a)]), ('P2', [N(b)])], 4, 'P2',
+            ('two-P1-P2-f4-ra1', [('P1', [N(a)]), ('P2', [N(b)])], 4, 'P1',
              None),
             ('two-cross-f4-ra1', [('P1', [N(a)]),
                                   ('P2', [E(A(a), b)])], 4, 'P1', None),
@@ -101,8 +105,8 @@ def _rows(tier: str):
              None),
             ('three-f5-ra1', [('R1', [N(s)]), ('P2', [N(a)]),
                               ('+P1/P2', [N(b)])], 5, 'P1', None),
-            ('three-f5-ra3', [('R1', [E(A(s), a)]), ('P2', [N(a)]),
-                              ('P3', [N(b)])], 5, 'P3', None),
+            ('three-f4-ra3', [('R1', [E(A(s), a)]), ('P2', [N(a)]),
+                              ('P3', [N(b)])], 4, 'P3', None),
             ('solo-P1-f5-ra1-stop2', [('P1', solo)], 5, 'P1', 2),
             ('solo-P1-f5-ra4-stop3', [('P1', solo)], 5, 'P4', 3),
             ('chain-P1-f4-ra1-stop2', [('P1', chain)], 4, 'P1', 2),
@@ -139,25 +143,31 @@ def _dt_rows():
     ]
 
 
-def _op_rows():
+def _op_rows(tier: str):
     a, b = 'a', 'b'
     # (name, sections, fcp, limit, ops)
-    return [
-        ('op-solo-P1-f4-ra1', [('P1', [N(a)])], 4, 'P1',
-         [('stop', {'mode': None, 'cycle_point': '2'}),
-          ('stop', {'mode': None, 'cycle_point': '3'}),
-          ('force_trigger_tasks', {'tasks': ['3/a'], 'flow': ['all']}),
-          ('force_trigger_tasks', {'tasks': ['1/a'], 'flow': ['all']})]),
-        ('op-solo-P1-f5-ra1-trigger-first', [('P1', [N(a)])], 5, 'P1',
-         [('force_trigger_tasks', {'tasks': ['1/a'], 'flow': ['all']})]),
-        ('op-chain-P1-f3-ra0', [('P1', [E(A(a), b)])], 3, 'P0',
-         [('stop', {'mode': None, 'cycle_point': '2'}),
-          ('force_trigger_tasks', {'tasks': ['3/b'], 'flow': ['all']}),
-          ('force_trigger_tasks', {'tasks': ['2/a'], 'flow': ['all']})]),
-        ('op-future-P1-f3-ra0', [('P1', [E(A(a, 1), b), N(a)])], 3, 'P0',
-         [('stop', {'mode': None, 'cycle_point': '2'}),
-          ('force_trigger_tasks', {'tasks': ['1/b'], 'flow': ['all']})]),
+    rows = [
+        ('op-chain-P1-f3-ra0-trigger', [('P1', [E(A(a), b)])], 3, 'P0',
+         [('force_trigger_tasks', {'tasks': ['2/a'], 'flow': ['all']})]),
     ]
+    if tier == 'thorough':
+        rows += [
+            ('op-solo-P1-f4-ra1', [('P1', [N(a)])], 4, 'P1',
+             [('stop', {'mode': None, 'cycle_point': '2'}),
+              ('stop', {'mode': None, 'cycle_point': '3'}),
+              ('force_trigger_tasks', {'tasks': ['3/a'], 'flow': ['all']}),
+              ('force_trigger_tasks', {'tasks': ['1/a'], 'flow': ['all']})]),
+            ('op-solo-P1-f5-ra1-trigger-first', [('P1', [N(a)])], 5, 'P1',
+             [('force_trigger_tasks', {'tasks': ['1/a'], 'flow': ['all']})]),
+            ('op-chain-P1-f3-ra0', [('P1', [E(A(a), b)])], 3, 'P0',
+             [('stop', {'mode': None, 'cycle_point': '2'}),
+              ('force_trigger_tasks', {'tasks': ['3/b'], 'flow': ['all']}),
+              ('force_trigger_tasks', {'tasks': ['1/a'], 'flow': ['all']})]),
+            ('op-future-P1-f3-ra0', [('P1', [E(A(a, 1), b), N(a)])], 3, 'P0',
+             [('stop', {'mode': None, 'cycle_point': '2'}),
+              ('force_trigger_tasks', {'tasks': ['1/b'], 'flow': ['all']})]),
+        ]
+    return rows
 
 
 def catalogue(tier: str):
@@ -185,12 +195,12 @@ def catalogue(tier: str):
                            graph=render_hours(secs), **extra)
             sp['kind'] = 'datetime'
             out.append(sp)
-        for name, secs, fcp, limit, ops in _op_rows():
-            sp = spec_from(secs, 1, fcp, name=name,
-                           scheduling={'runahead limit': limit})
-            sp['kind'] = 'op'
-            sp['ops'] = ops
-            out.append(sp)
+    for name, secs, fcp, limit, ops in _op_rows(tier):
+        sp = spec_from(secs, 1, fcp, name=name,
+                       scheduling={'runahead limit': limit})
+        sp['kind'] = 'op'
+        sp['ops'] = ops
+        out.append(sp)
     return out
 
 
@@ -228,9 +238,9 @@ def run(ctx: Ctx) -> Result:
                 'releases-with-others-held-back',
                 'releases-with-future-offset', 'releases-with-stop-cap',
                 'terminals']
+        need += ['trigger-commands']
         if ctx.tier == 'thorough':
-            need += ['stop-point-commands', 'trigger-commands',
-                     'releases-manual-exempt']
+            need += ['stop-point-commands', 'releases-manual-exempt']
         miss = [k for k in need if not counts.get(k)]
         if miss:
             raise HarnessError(f'vacuous: seam(s) never exercised: {miss}')
@@ -245,7 +255,7 @@ def run(ctx: Ctx) -> Result:
                     '', ', default, PT0H..P1D'),
                 'recurrences per workflow<=': 3, 'tasks<=': 3,
                 'final point<=': ctx.pick(5, 7),
-                'operator commands per execution': ctx.pick(0, 1)},
+                'operator commands per execution': 1},
         assumptions=ASSUME, min_states=100,
         extra_cov={'seam_counters': counts})
 
